@@ -112,6 +112,11 @@ const (
 func (p *parser) BasicParser(urlOrRef string, baseUrl *Url, url *Url, stateOverride State) (*Url, error) {
 	verifEnter()
 	stateOverridden := stateOverride > NoState
+	if !p.opts.acceptInvalidCodepoints && !utf8.ValidString(urlOrRef) {
+		// Read every invalid byte as U+FFFD before anything is stripped, so that removing a
+		// tab or newline cannot join the halves of a split multi-byte sequence.
+		urlOrRef = string([]rune(urlOrRef))
+	}
 	if url == nil {
 		url = &Url{inputUrl: urlOrRef, path: &path{}}
 		if i, changed := trim(url.inputUrl, C0OrSpacePercentEncodeSet); changed {
